@@ -393,11 +393,14 @@ impl Check for C02 {
             }
             // natural schedule under a small real limit
             let peak = base.counters.peak_allocated.max(64);
-            for f in [2usize, 1] {
+            // (the third one on a VM created with the default limit and switched down with
+            // set_memory_limit, as an embedder configures a VM it already has)
+            for (f, from) in [(2usize, None), (1, None), (2, Some(400 * 1024usize))] {
                 let mut s = base_s.clone();
                 s.gc = GcPlan::Natural;
                 s.quarantine = false;
                 s.knobs.mem_limit = peak * f + 512;
+                s.knobs.limit_from = from;
                 ctx.progress("run natural");
                 let out = run_sched(&program, &s);
                 ctx.evaluation();
